@@ -742,7 +742,24 @@ def _one_scenario_checked(ctx, sc, tmp, idx, rng, deep):
     state = rng.getstate()
     sc0 = copy.deepcopy(sc)
     n0 = len(chk.violations)
-    one_scenario(ctx, sc, tmp, idx, rng, deep)
+    try:
+        one_scenario(ctx, sc, tmp, idx, rng, deep)
+    except Exception as e:   # noqa
+        # an exception that escapes from the real code while a scenario is driven (e.g. the completing round cannot
+        # read the results file any more) is a failing input of the property, with this scenario as replay; an
+        # exception raised by the driver itself is a harness error (tie break), never a violation
+        import traceback
+        tb = traceback.extract_tb(e.__traceback__)
+        inner = tb[-1].filename if tb else ""
+        text = "".join(traceback.format_exception(type(e), e, e.__traceback__))[-1500:]
+        if "/jade/" in inner and "/harness/" not in inner:
+            chk.violation("real-code-raised:" + type(e).__name__,
+                          f"while resubmitting / rerunning this submission the real code raised {type(e).__name__}: {str(e)[:160]}",
+                          {"scenario": f"{sc0.get('shape')}#{idx}", "jobs": sc0.get("jobs"), "groups": sc0.get("groups"),
+                           "traceback_tail": text})
+        else:
+            chk.tie_broken("C13 driver crashed in scenario %s#%s" % (sc0.get("shape"), idx), text)
+        return
     new = chk.violations[n0:]
     if not new:
         return
